@@ -87,6 +87,18 @@ THEOREMS = [
     "OllamaVerif.C09.history_linked_layers_verified_tree",
     "OllamaVerif.C09.handlePull_linked_layers_verified_tree",
     "OllamaVerif.C09.F10d_breaks_unguarded_invariant_on_tree",
+    "OllamaVerif.C09.linkedVerifiedSized_empty",
+    "OllamaVerif.C09.pull_links_other",
+    # the branch tracing the coverage gate rests on IS the model
+    "OllamaVerif.C09.advanceT_fst",
+    "OllamaVerif.C09.stepT_fst",
+    "OllamaVerif.C09.runStepsT_fst",
+    "OllamaVerif.C09.pullRun_traced",
+    # which blobs the new-client push offers (finding F30)
+    "OllamaVerif.C09.push_covers_all",
+    "OllamaVerif.C09.push_omits_config",
+    "OllamaVerif.C09.push_manifest_after_every_blob",
+    "OllamaVerif.C09.F30_push_never_offers_config",
 ]
 OVERLAY = {"server/internal/client/ollama/zz_verif_c09_test.go": "server_internal_client_ollama/zz_verif_c09_test.go"}
 OVERLAY_LEGACY = {"server/zz_verif_c09_push_test.go": "server/zz_verif_c09_push_test.go"}
